@@ -63,6 +63,15 @@ class RecQ:
         return hash(("RecQ", self.units))
 
 
+class PartialQ(RecQ):
+    """a quantity class that knows only some units and refuses the others with ValueError, as the
+    astropy / pint classes do"""
+    def __init__(self, value, units):
+        if str(units).strip() != "m":
+            raise ValueError("unknown unit %r" % (units,))
+        RecQ.__init__(self, value, units)
+
+
 class MyModule(impl.PVLModule):
     pass
 
@@ -99,6 +108,8 @@ POSITIONS = [
     ("group-in-object", "OBJECT = o\n GROUP = g\n  k = ({v}, {v} <m>)\n END_GROUP\n q = {v}\nEND_OBJECT\nz = {v}\n", 0),
     ("object-in-object", "OBJECT = o\n OBJECT = o\n  k = {v}\n END_OBJECT\nEND_OBJECT\nOBJECT = o\n k = {v}\nEND_OBJECT\n", 0),
     ("after-comment", "/* c */ k = /* d */ {v} /* e */ <m>\nEND\n", 0),
+    # the module itself is a container too, also when nothing is in it
+    ("empty-text", "", 0), ("blank-text", " \n\n", 0), ("comment-only", "/* c */\n", 0), ("end-only", "END\n", 0),
     # the same number written twice, differently ({w} is another spelling of {v})
     ("twice-quantity", "k = {v} <m>\nj = {w} <m>\ni = {v} <m>\n", 0),
     ("twice-quantity-in-seq", "k = ({w} <m>, {v} <m>, {w} <s>)\n", 0),
@@ -144,7 +155,7 @@ ALT = {"1.50": "1.5", "0.10": "0.100", "1.0E3": "1000.0", "-2.50": "-2.5", "+.5"
 
 def parser_for(d, real, qty, cont):
     real_cls = {"float": None, "Decimal": Decimal, "Rec": Rec, "Txt": Txt}[real]
-    q_cls = {"Quantity": None, "RecQ": RecQ}[qty]
+    q_cls = {"Quantity": None, "RecQ": RecQ, "PartialQ": PartialQ}[qty]
     kw = {}
     if cont:
         kw = dict(module_class=MyModule, group_class=MyGroup, object_class=MyObject)
@@ -172,17 +183,29 @@ def parser_for(d, real, qty, cont):
     return None      # OMNI goes through pvl.loads(), see load()
 
 
-FAMILIES = tuple(impl.DIALECTS) + ("PVLsep", "ODLsep", "PDS3sep", "ISISsep", "OMNIsep", "OMNIbytes")
+FAMILIES = tuple(impl.DIALECTS) + ("PVLsep", "ODLsep", "PDS3sep", "ISISsep", "OMNIsep", "OMNIbytes", "NEW")
+
+
+def _old_classes(m):
+    K = {impl.PVLModuleNew: impl.PVLModule, impl.PVLGroupNew: impl.PVLGroup, impl.PVLObjectNew: impl.PVLObject}
+    if type(m) in K:
+        return K[type(m)]([(k, _old_classes(v)) for k, v in m.items()])
+    return m
 
 
 def load(d, text, real, qty, cont):
-    if d in ("OMNI", "OMNIsep", "OMNIbytes"):
+    if d in ("OMNI", "OMNIsep", "OMNIbytes", "NEW"):
         import pvl
         real_cls = {"float": None, "Decimal": Decimal, "Rec": Rec, "Txt": Txt}[real]
-        q_cls = {"Quantity": None, "RecQ": RecQ}[qty]
+        q_cls = {"Quantity": None, "RecQ": RecQ, "PartialQ": PartialQ}[qty]
         kw = {}
         if cont:
             kw = dict(module_class=MyModule, group_class=MyGroup, object_class=MyObject)
+        if d == "NEW":
+            # the other convenience function: its own container classes, mapped back to the default
+            # ones before the result is looked at
+            import pvl.new
+            return _old_classes(pvl.new.loads(text, decoder=impl.OmniDecoder(quantity_cls=q_cls, real_cls=real_cls)))
         if d == "OMNIsep":
             return pvl.loads(text, grammar=impl.OmniGrammar(),
                              decoder=impl.OmniDecoder(quantity_cls=q_cls, real_cls=real_cls), **kw)
@@ -214,7 +237,7 @@ def walk(v, real, qty, cont, spelled, problems, path, top=False, key=None):
             base = type(v)
         return base([(k, walk(x, real, qty, cont, spelled, problems, path + "." + str(k), key=k)) for k, x in v])
     if isinstance(v, RecQ) or isinstance(v, impl.Quantity):
-        if (qty == "RecQ") != isinstance(v, RecQ):
+        if (qty in ("RecQ", "PartialQ")) != isinstance(v, RecQ) or (qty == "PartialQ") != isinstance(v, PartialQ):
             problems.append("%s: value-with-units is %s, quantity class requested %s" % (path, type(v).__name__, qty))
         return impl.Quantity(walk(v.value, real, qty, cont, spelled, problems, path + ".value"),
                              v.units)
@@ -288,6 +311,8 @@ def check_case(case):
     try:
         m = load(d, text, real, qty, cont)
     except Exception as e:  # noqa: BLE001
+        if qty == "PartialQ" and "<s>" in text:
+            return out, "refused-by-the-quantity-class"       # the class does not know the unit: not a result
         out.append({"case": case, "diagnosis": "substitutes-change-acceptance:" + d,
                     "detail": "text %r loads with the default classes but raises %s: %s with real=%s "
                               "quantity=%s containers=%s" % (text, type(e).__name__, str(e)[:150], real, qty, cont)})
@@ -311,8 +336,12 @@ def shard(spec):
         return acc
     for spelled in REALS + INTS + STRS:
         text = tmpl.format(v=spelled, w=ALT[spelled])
-        for real, qty, cont in itertools.product(("float", "Decimal", "Rec", "Txt"), ("Quantity", "RecQ"), (False, True)):
+        for real, qty, cont in itertools.product(("float", "Decimal", "Rec", "Txt"), ("Quantity", "RecQ", "PartialQ"), (False, True)):
             if restrict == 2 and d in ("ODL", "PDS3", "ODLsep", "PDS3sep"):
+                continue
+            if d == "NEW" and cont:
+                continue
+            if qty == "PartialQ" and real not in ("float", "Decimal"):
                 continue
             case = {"dialect": d, "text": text, "real": real, "qty": qty, "cont": cont,
                     "reals": real_queue(tmpl, spelled, ALT[spelled]), "position": name}
@@ -340,8 +369,8 @@ def run(ctx):
         "evaluations": acc.n, "distinct_nontrivial": acc.nontrivial,
         "states": len(acc.sets["pos"]), "transitions": acc.traces,
         "traces_validated_against_impl": acc.traces,
-        "rule": "%d grammar positions (the curated ones; thorough adds every composition up to depth 3 of sequence-first / sequence-last / sequence-only / set-member contexts x bare | with units | units on the sequence x 5 block wrappers) x %d spellings (reals %r, integers and strings %r) x 4 real classes (float, Decimal, a recording float subclass, a text-keeping class outside the numeric tower) x 2 quantity classes x "
-                "2 container-class sets x 11 parser/decoder families (the five configurations; four of them and pvl.loads again with grammar and decoder built separately; pvl.loads of bytes), full product; states = (position, "
+        "rule": "%d grammar positions (the curated ones; thorough adds every composition up to depth 3 of sequence-first / sequence-last / sequence-only / set-member contexts x bare | with units | units on the sequence x 5 block wrappers) x %d spellings (reals %r, integers and strings %r) x 4 real classes (float, Decimal, a recording float subclass, a text-keeping class outside the numeric tower) x 3 quantity classes (default, a recording class, a partial class that refuses units it does not know) x "
+                "2 container-class sets x 12 parser/decoder families (the five configurations; four of them and pvl.loads again with grammar and decoder built separately; pvl.loads of bytes; pvl.new.loads), full product; states = (position, "
                 "substitute combination); non-trivial = both configurations loaded and every node of the result "
                 "was type-checked and compared after mapping back" % (len(POSITIONS), len(REALS + INTS + STRS), REALS, INTS + STRS),
         "outcome_histogram": dict(acc.outcomes),
